@@ -358,7 +358,7 @@ def hash_name(n):
     for c in n: h = (h * 33 + ord(c)) & 0xffffffff
     return h
 
-LIBC = {'strlen','strcmp','strncmp','strcpy','strncpy','memcmp','memcpy','memmove','memset','strcat','malloc','free','realloc','calloc','printf','fprintf','puts','putchar','exit','abort','sqrt','pow','floor','ceil','log','log2','fputc','fwrite','fflush','bcmp','memchr','strchr','qsort','rand','srand','getrusage','gettimeofday','fputs','sprintf','snprintf'}
+LIBC = {'strlen','strcmp','strncmp','strcpy','strncpy','memcmp','memcpy','memmove','memset','strcat','malloc','free','realloc','calloc','printf','fprintf','puts','putchar','exit','abort','sqrt','pow','floor','ceil','log','log2','exp2','exp','fabs','fputc','fwrite','fflush','bcmp','memchr','strchr','qsort','rand','srand','getrusage','gettimeofday','fputs','sprintf','snprintf'}
 INTRIN_SKIP = ('llvm.lifetime.', 'llvm.dbg.', 'llvm.assume', 'llvm.experimental.noalias', 'llvm.invariant.', 'llvm.donothing', 'llvm.var.annotation', 'llvm.stackprotector')
 
 class Emitter:
@@ -375,6 +375,7 @@ class Emitter:
         self.seen_gset = set()
         self.ext_funcs = {}          # name -> (ret, params, va)
         self.unmodelled = set()
+        self.defined = None          # names defined by the environment model (None: do not generate traps)
 
     # ---- types
     def resolve(self, t):
@@ -603,56 +604,128 @@ class Emitter:
         else:
             raise KeyError('unknown global ' + nm)
 
-    # ---- virtual dispatch: candidates of vtable slot k = k-th entry after the address point of every vtable in the module
-    def vslot_candidates(self, k):
-        if not hasattr(self, '_vslots'):
-            self._vslots = {}
-            for g, gd in self.m.globals.items():
-                if not g.startswith('_ZTV') or gd.get('init') is None: continue
-                init = gd['init']
-                if init[0] != 'agg': continue
-                for et, ev in init[1]:                  # one array per (sub)vtable
-                    if ev[0] != 'agg': continue
-                    ents = ev[1]
-                    # vtables of abstract classes are only installed while a base sub-object is being
-                    # constructed/destroyed; a dispatch that lands there fails the model assertion below
-                    def tgt(vv):
-                        while vv[0] == 'ccast': vv = vv[3]
-                        return vv[1] if vv[0] == 'global' else None
-                    if any(tgt(vv) == '__cxa_pure_virtual' for tt, vv in ents): continue
-                    # address point: first entry after the (offset-to-top, typeinfo) pair; for the primary vtable index 2
-                    for idx, (tt, vv) in enumerate(ents):
-                        v = vv
-                        while v[0] == 'ccast': v = v[3]
-                        if v[0] == 'global' and idx >= 2:
-                            nm = self.unalias(v[1])
-                            if nm in self.m.funcs or nm in self.m.decls:
-                                self._vslots.setdefault(idx - 2, [])
-                                if nm not in self._vslots[idx - 2]: self._vslots[idx - 2].append(nm)
-        return self._vslots.get(k, [])
+    # ---- virtual dispatch.  An indirect call whose callee is `load (gep (load vptr), k)` becomes a call to a
+    # per-(slot, signature) dispatcher that compares the function pointer against the k-th entry of every vtable the
+    # slice installs (vtables of abstract classes excluded) and calls that function directly.  Vtables are emitted
+    # with only the slots some dispatcher uses, so a class drags in only the virtual methods that can be called.
+    def is_vtable(self, g):
+        return g.startswith('_ZTV') and self.m.globals[g].get('init') is not None and self.m.globals[g]['init'][0] == 'agg'
+    def vtable_entries(self, g):
+        """[(subtable index, entry index, function name or None)]"""
+        out = []
+        init = self.m.globals[g]['init']
+        for si, (et, ev) in enumerate(init[1]):
+            if ev[0] != 'agg': continue
+            for idx, (tt, vv) in enumerate(ev[1]):
+                v = vv
+                while v[0] == 'ccast': v = v[3]
+                nm = None
+                if v[0] == 'global':
+                    nm = self.unalias(v[1])
+                    if not (nm in self.m.funcs or nm in self.m.decls): nm = None
+                out.append((si, idx, nm))
+        return out
+    def vtable_abstract(self, g):
+        return any(nm == '__cxa_pure_virtual' for si, idx, nm in self.vtable_entries(g))
+    def dispatcher(self, k, ft):
+        key = (k, ft)
+        if key not in self.dispatchers:
+            self.dispatchers[key] = 'ir2c_vd%d_s%d' % (len(self.dispatchers), k)
+            self.used_slots.add(k)
+            self.fnty(ft)
+        return self.dispatchers[key]
+    def dispatch_candidates(self, k, ft):
+        cands = []
+        rt, ps = ft[1], ft[2]
+        for g in self.seen_vtables:
+            if self.vtable_abstract(g): continue
+            for si, idx, nm in self.vtable_entries(g):
+                if idx - 2 != k or nm is None or nm == '__cxa_pure_virtual': continue
+                if nm in self.m.funcs: sig = (self.m.funcs[nm].ret, [t for t, _, _ in self.m.funcs[nm].params])
+                else: sig = (self.m.decls[nm][0], self.m.decls[nm][1])
+                if len(sig[1]) != len(ps) or (sig[0] != rt and not (sig[0][0] == 'ptr' and rt[0] == 'ptr')): continue
+                if any(x != y and not (x[0] == 'ptr' and y[0] == 'ptr') for x, y in list(zip(sig[1], ps))[1:]): continue
+                if (nm, sig) not in [(c[0], c[1]) for c in cands]: cands.append((nm, sig))
+        return cands
+    def emit_dispatcher(self, k, ft, name):
+        rt, ps = ft[1], ft[2]
+        args = ', '.join(['%s f_' % self.fnty(ft)] + ['%s a%d_' % (self.cty(t), i) for i, t in enumerate(ps)])
+        body = []
+        for nm, sig in self.dispatch_candidates(k, ft):
+            ext = not (nm in self.m.funcs and nm not in self.stubs)
+            av = []
+            for i, t in enumerate(ps):
+                if t[0] == 'ptr': av.append('((%s)a%d_)' % ('uint8_t*' if ext else self.cty(sig[1][i]), i))
+                else: av.append('a%d_' % i)
+            call = '%s(%s)' % (san(nm), ', '.join(av))
+            if rt[0] == 'void': body.append('if (f_ == (%s)&%s) { %s; return; }' % (self.fnty(ft), san(nm), call))
+            else: body.append('if (f_ == (%s)&%s) return %s%s;' % (self.fnty(ft), san(nm), '(%s)' % self.cty(rt) if rt[0] == 'ptr' else '', call))
+        body.append('__CPROVER_assert(0, "VERIF model: virtual call target is not a method of any class the slice instantiates");')
+        body.append('__CPROVER_assume(0);')
+        if rt[0] != 'void': body.append('return (%s)%s;' % (self.cty(rt), '{0}' if rt[0] in ('struct', 'array', 'named') else '0'))
+        return 'static %s %s(%s) {\n  %s\n}\n' % (self.cty(rt), name, args, '\n  '.join(body))
+    def emit_vtable(self, g):
+        gd = self.m.globals[g]
+        ct = self.cty(gd['type'])
+        init = gd['init']
+        subs = []
+        for et, ev in init[1]:
+            ents = []
+            for idx, (tt, vv) in enumerate(ev[1]):
+                v = vv
+                while v[0] == 'ccast': v = v[3]
+                keep = idx >= 2 and v[0] == 'global' and (self.all_slots or (idx - 2) in self.used_slots)
+                ents.append(self.init(tt, vv) if keep else '0')
+            subs.append('{{' + ','.join(ents) + '}}')
+        return '%s G_%s = {%s};' % (ct, san(g), ','.join(subs))
 
     # ---- driver
     def run(self, entries):
+        self.dispatchers = {}; self.used_slots = set(); self.seen_vtables = []; self.all_slots = bool(os.environ.get('IR2C_NO_DEVIRT'))
         for e in entries: self.ref_global(e)
         bodies = []
         gdefs = {}
         gi = 0
-        while self.need_funcs or gi < len(self.seen_globals):
+        done_disp = {}
+        while True:
+            progress = False
             while self.need_funcs:
-                nm = self.need_funcs.pop()
+                nm = self.need_funcs.pop(); progress = True
                 bodies.append(FuncEmitter(self, self.m.funcs[nm]).emit())
             while gi < len(self.seen_globals):
-                g = self.seen_globals[gi]; gi += 1
-                gdefs[g] = self.emit_global(g)
+                g = self.seen_globals[gi]; gi += 1; progress = True
+                if self.is_vtable(g): self.seen_vtables.append(g)
+                else: gdefs[g] = self.emit_global(g)
+            # vtable slots in use pull in their methods; dispatchers pull in their candidates
+            n0 = len(self.seen_funcs) + len(self.ext_funcs) + len(self.seen_globals)
+            for g in self.seen_vtables:
+                for si, idx, nm in self.vtable_entries(g):
+                    if nm and idx >= 2 and (self.all_slots or (idx - 2) in self.used_slots): self.ref_global(nm)
+            for (k, ft) in list(self.dispatchers):
+                for nm, sig in self.dispatch_candidates(k, ft): self.ref_global(nm)
+            if len(self.seen_funcs) + len(self.ext_funcs) + len(self.seen_globals) != n0: progress = True
+            if not progress: break
+        for g in self.seen_vtables: gdefs[g] = self.emit_vtable(g)
+        disp_bodies = [self.emit_dispatcher(k, ft, name) for (k, ft), name in self.dispatchers.items()]
         o = []
         o.append('/* generated by ir2c.py */')
         o.append('#include <stdint.h>\n#include <stddef.h>\n#include <string.h>\n#include <stdlib.h>')
         o.append('#include "ir2c_rt.h"')
         # prototypes first (may register more types)
         o2 = []
+        traps = []
+        self.trapped = []
         for nm, (ret, ps, va) in self.ext_funcs.items():
             if nm.startswith('llvm.') or nm.startswith('__CPROVER_') or nm in LIBC: continue
             o2.append(self.proto(nm, ret, ps, va, erased=True) + ';')
+            if self.defined is not None and nm not in self.defined:
+                # external that the environment model does not define: reaching it is reported, never ignored
+                self.trapped.append(nm)
+                args = 'void' if not ps and not va else ', '.join('%s a%d_' % (self.ety(t), i) for i, t in enumerate(ps))
+                if va: args = ''
+                rv = '' if ret[0] == 'void' else ' return (%s)%s;' % (self.ety(ret), '{0}' if ret[0] in ('struct', 'array', 'named', 'vector') else '0')
+                traps.append('%s %s(%s) { __CPROVER_assert(0, "VERIF model: unencoded external %s reached"); __CPROVER_assume(0);%s }' %
+                             (self.ety(ret), san(nm), args, nm[:80], rv))
         for nm in self.seen_funcs:
             f = self.m.funcs[nm]
             o2.append(self.proto(nm, f.ret, [t for t, _, _ in f.params], f.va) + ';')
@@ -710,6 +783,8 @@ class Emitter:
             o.append('static uint8_t *%s(uint64_t nb) { uint64_t c = nb / sizeof(%s); IR2C_NEW_CASES(%s, c, %s) __CPROVER_assert(0, "allocation larger than the modelled bound"); __CPROVER_assume(0); return 0; }' % (fn, ct, ct, cap))
         for g in self.seen_globals:
             o.append(gdefs[g])
+        o += disp_bodies
+        o += traps
         o += bodies
         return '\n'.join(o) + '\n'
 
@@ -1102,34 +1177,16 @@ class FuncEmitter:
             ft = ('func', rt, tuple(a[0] for a in args), False) if fty is None else fty
             target = '((%s)%s)' % (em.fnty(ft), V(('ptr', ft), callee))
             slot = self.vslot_of(callee)
-            if slot is not None and not os.environ.get('IR2C_NO_DEVIRT'):
-                cands = []
-                for nm in em.vslot_candidates(slot):
-                    if nm in em.m.funcs: sig = (em.m.funcs[nm].ret, [t for t, _, _ in em.m.funcs[nm].params])
-                    else: sig = (em.m.decls[nm][0], em.m.decls[nm][1])
-                    if len(sig[1]) != len(args) or (sig[0] != rt and not (sig[0][0] == 'ptr' and rt[0] == 'ptr')): continue
-                    if any(a != b[0] and not (a[0] == 'ptr' and b[0][0] == 'ptr') for a, b in list(zip(sig[1], args))[1:]): continue
-                    cands.append((nm, sig))
-                if cands:
-                    fv = 'vf%d_' % len(self.decls)
-                    self.decls[fv] = em.fnty(ft)
-                    out = pre + ['%s = %s;' % (fv, target)]
-                    if res is not None and rt[0] != 'void': self.decl(res, rt)
-                    chain = []
-                    for nm, sig in cands:
-                        em.ref_global(nm)
-                        ext = not (nm in em.m.funcs and nm not in em.stubs)
-                        av = []
-                        for i, a in enumerate(argv):
-                            if args[i][0][0] == 'ptr': av.append('((%s)%s)' % ('uint8_t*' if ext else em.cty(sig[1][i]), a))
-                            else: av.append(a)
-                        call = '%s(%s)' % (san(nm), ', '.join(av))
-                        if res is not None and rt[0] != 'void':
-                            call = '%s = %s%s' % (self.lname(res), '(%s)' % em.cty(rt) if rt[0] == 'ptr' else '', call)
-                        chain.append('if (%s == (%s)&%s) { %s; }' % (fv, em.fnty(ft), san(nm), call))
-                    chain.append('{ __CPROVER_assert(0, "VERIF model: virtual call target outside the module\'s vtables"); __CPROVER_assume(0); }')
-                    out.append(' else '.join(chain))
-                    return out + tail
+            if slot is not None and not em.all_slots:
+                target = '%s(%s, ' % (em.dispatcher(slot, ft), target)
+                call = target + ', '.join(argv) + ')'
+                if res is not None and rt[0] != 'void':
+                    self.decl(res, rt)
+                    return pre + ['%s = %s;' % (self.lname(res), call)] + tail
+                return pre + [call + ';'] + tail
+            cd = self.defs.get(callee[1]) if callee[0] == 'local' else None
+            if cd is not None and cd[0] == 'load' and not em.all_slots:
+                em.all_slots = True          # unrecognised shape of a virtual call: fall back to complete vtables
         call = '%s(%s)' % (target, ', '.join(argv))
         if callee[0] == 'global' and rt[0] == 'ptr' and is_ext:
             call = '((%s)%s)' % (em.cty(rt), call)
@@ -1259,16 +1316,19 @@ def main():
     ap.add_argument('--stub', action='append', default=[], help='treat as external even if defined')
     ap.add_argument('--stubfile')
     ap.add_argument('--report')
+    ap.add_argument('--defined', help='file with names of functions the environment model defines; other externals become traps')
     a = ap.parse_args()
     stubs = list(a.stub)
     if a.stubfile:
         stubs += [l.strip() for l in open(a.stubfile) if l.strip() and not l.startswith('#')]
     mod = Module(open(a.ll).read())
     em = Emitter(mod, stubs)
+    if a.defined:
+        em.defined = set(l.strip() for l in open(a.defined) if l.strip())
     c = em.run(a.entry)
     open(a.out, 'w').write(c)
     rep = dict(functions=sorted(em.seen_funcs), externals=sorted(n for n in em.ext_funcs if not n.startswith('llvm.')),
-               globals=list(em.seen_globals), external_globals=[g for g in em.seen_globals if mod.globals[g].get('external') or (mod.globals[g].get('init') is None and 'alias' not in mod.globals[g])])
+               globals=list(em.seen_globals), trapped=sorted(getattr(em, 'trapped', [])), external_globals=[g for g in em.seen_globals if mod.globals[g].get('external') or (mod.globals[g].get('init') is None and 'alias' not in mod.globals[g])])
     if a.report: json.dump(rep, open(a.report, 'w'), indent=1)
     sys.stderr.write('ir2c: %d functions, %d externals, %d globals\n' % (len(rep['functions']), len(rep['externals']), len(rep['globals'])))
 
